@@ -396,8 +396,9 @@ class Session(BaseSession):
             if isinstance(q.expression.this, exp.Select):
                 # Mysql parse treats EXPLAIN SELECT as a DESCRIBE SELECT statement
                 return await q.next()
-            name = q.expression.this.name
-            show = self.dialect().parse(f"SHOW COLUMNS FROM {name}")[0]
+            # Keep the database qualifier (and the quoting) of DESCRIBE db.tbl
+            table = q.expression.this.sql(dialect=self.dialect)
+            show = self.dialect().parse(f"SHOW COLUMNS FROM {table}")[0]
             return await self._show(show) if isinstance(show, exp.Show) else None
         return await q.next()
 
